@@ -78,6 +78,7 @@ type c12Entry struct {
 	time     uint64
 	progress bool
 	evSeq    int
+	k        int // tick index (State.Ticks before the tick)
 }
 
 type c12Run struct {
@@ -91,7 +92,10 @@ type c12Run struct {
 	// what the checkpoint leg saw
 	restored             bool
 	tickQueuedAtSaveTime bool // the saved engine queue held a tick of the component for exactly the engine's time
+	tickQueuedLater      bool // ... for a later time
 	postLoadCalls        int
+	cutLogLen            int    // len(log) at the cut
+	cutTime              uint64 // engine time at the cut
 }
 
 func (r *c12Run) do(ops []c12Op) {
@@ -120,7 +124,7 @@ func (m *c12MW) Tick() bool {
 	k := st.Ticks
 	st.Ticks++
 	progress := k < len(r.c.Progress) && r.c.Progress[k]
-	r.log = append(r.log, c12Entry{tick: true, time: uint64(r.comp.CurrentTime()), progress: progress, evSeq: r.evSeq})
+	r.log = append(r.log, c12Entry{tick: true, time: uint64(r.comp.CurrentTime()), progress: progress, evSeq: r.evSeq, k: k})
 	if k < len(r.c.InTick) {
 		r.do(r.c.InTick[k])
 	}
@@ -169,7 +173,7 @@ func (r *c12Run) build() {
 
 // tickQueuedAt reports whether the engine checkpoint holds an event of handler
 // "Dut" for exactly the engine's saved time.
-func c12TickQueuedAtSaveTime(engCkpt []byte) bool {
+func c12TickQueuedAtSaveTime(engCkpt []byte) (atNow, later bool) {
 	type payload struct {
 		Payload struct {
 			Time      uint64 `json:"time"`
@@ -182,17 +186,29 @@ func c12TickQueuedAtSaveTime(engCkpt []byte) bool {
 		Secondary []payload `json:"secondary"`
 	}
 	if json.Unmarshal(engCkpt, &dto) != nil {
-		return false
+		return false, false
 	}
 	for _, p := range append(dto.Primary, dto.Secondary...) {
-		if p.Payload.HandlerID == "Dut" && p.Payload.Time == dto.Time {
-			return true
+		if p.Payload.HandlerID != "Dut" {
+			continue
+		}
+		if p.Payload.Time == dto.Time {
+			atNow = true
+		} else {
+			later = true
 		}
 	}
-	return false
+	return atNow, later
 }
 
 func runC12(c c12Case) (r *c12Run, ok bool, sig, msg string) {
+	return runC12Leg(c, true)
+}
+
+// runC12Leg executes the case. With saveLoad=false the cut is still made at
+// the same point (RunUntil, then the post-cut calls) but nothing is saved or
+// rebuilt: the uninterrupted leg of the C06 differential.
+func runC12Leg(c c12Case, saveLoad bool) (r *c12Run, ok bool, sig, msg string) {
 	timing.ResetIDGenerator()
 	r = &c12Run{c: c}
 	ok, sig, msg = kit.Guard(func() {
@@ -209,23 +225,11 @@ func runC12(c c12Case) (r *c12Run, ok bool, sig, msg string) {
 					panic(fmt.Sprintf("RunUntil returned %v", err))
 				}
 			}
-			var engCkpt, compCkpt bytes.Buffer
-			if err := r.eng.SaveCheckpoint(&engCkpt); err != nil {
-				panic(fmt.Sprintf("engine SaveCheckpoint: %v", err))
+			r.cutLogLen = len(r.log)
+			r.cutTime = uint64(r.eng.CurrentTime())
+			if saveLoad {
+				r.saveRebuildLoad()
 			}
-			if err := r.comp.SaveCheckpoint(&compCkpt); err != nil {
-				panic(fmt.Sprintf("component SaveCheckpoint: %v", err))
-			}
-			r.tickQueuedAtSaveTime = c12TickQueuedAtSaveTime(engCkpt.Bytes())
-			// rebuild from scratch, as a resumed process would
-			r.build()
-			if err := r.eng.LoadCheckpoint(&engCkpt); err != nil {
-				panic(fmt.Sprintf("engine LoadCheckpoint: %v", err))
-			}
-			if err := r.comp.LoadCheckpoint(&compCkpt); err != nil {
-				panic(fmt.Sprintf("component LoadCheckpoint: %v", err))
-			}
-			r.restored = true
 			before := len(r.log)
 			r.do(c.PostLoad)
 			r.postLoadCalls = len(r.log) - before
@@ -235,6 +239,26 @@ func runC12(c c12Case) (r *c12Run, ok bool, sig, msg string) {
 		}
 	})
 	return
+}
+
+func (r *c12Run) saveRebuildLoad() {
+	var engCkpt, compCkpt bytes.Buffer
+	if err := r.eng.SaveCheckpoint(&engCkpt); err != nil {
+		panic(fmt.Sprintf("engine SaveCheckpoint: %v", err))
+	}
+	if err := r.comp.SaveCheckpoint(&compCkpt); err != nil {
+		panic(fmt.Sprintf("component SaveCheckpoint: %v", err))
+	}
+	r.tickQueuedAtSaveTime, r.tickQueuedLater = c12TickQueuedAtSaveTime(engCkpt.Bytes())
+	// rebuild from scratch, as a resumed process would
+	r.build()
+	if err := r.eng.LoadCheckpoint(&engCkpt); err != nil {
+		panic(fmt.Sprintf("engine LoadCheckpoint: %v", err))
+	}
+	if err := r.comp.LoadCheckpoint(&compCkpt); err != nil {
+		panic(fmt.Sprintf("component LoadCheckpoint: %v", err))
+	}
+	r.restored = true
 }
 
 func genC12Ops(rt *rapid.T, maxOps int, label string) []c12Op {
